@@ -54,7 +54,18 @@ fn main() {
     let _ = std::io::stdin().read_to_string(&mut input);
     for line in input.lines().filter(|l| !l.trim().is_empty()) {
       let r = std::panic::catch_unwind(|| {
-        let scope = dmntk_feel::Scope::default();
+        // `<context literal> ;; <expression>`: the expression is evaluated in the scope made of that context
+        let (scope, line) = match line.split_once(" ;; ") {
+          Some((ctx, rest)) => {
+            let empty = dmntk_feel::Scope::default();
+            let node = dmntk_feel_parser::parse_expression(&empty, ctx, false).expect("scope text");
+            match dmntk_feel_evaluator::evaluate(&empty, &node) {
+              Ok(dmntk_feel::values::Value::Context(c)) => (dmntk_feel::Scope::from(c), rest),
+              other => panic!("scope is not a context: {:?}", other),
+            }
+          }
+          None => (dmntk_feel::Scope::default(), line),
+        };
         match dmntk_feel_parser::parse_expression(&scope, line, false) {
           Err(e) => format!("PARSE-ERROR {}", e),
           Ok(node) => match dmntk_feel_evaluator::evaluate(&scope, &node) {
